@@ -108,7 +108,7 @@ Edge == /\ Is("edge") /\ Adv
         /\ viol' = viol \cup If(~Ev.hitMin \/ ~Ev.hitMax \/ (Ev.zeroIn /\ ~Ev.hitZero), IF Ev.float THEN "float_edge_not_hit" ELSE "edge_not_hit")
         /\ UNCHANGED <<scen, kind, last, nfinal>>
 Fresh == /\ Is("fresh") /\ Adv
-         /\ viol' = viol \cup If(~IsSet(Ev.seeds), "seed_repeated") \cup If(Ev.ncases > 1 /\ Ev.distinctCases <= 1, "cases_repeat")
+         /\ viol' = viol \cup If(~IsSet(Ev.seeds), "seed_repeated") \cup If(Ev.ncases > 1 /\ Ev.distinctCases < Ev.ncases, "cases_repeat")   \* 64-bit stream fingerprints of the test cases of one run
          /\ UNCHANGED <<scen, kind, last, nfinal>>
 
 Handled == {"hang", "scen.begin", "scen.end", "h.phase", "contract", "h.once.end", "run.end", "reach", "edge", "fresh"}
